@@ -10,6 +10,7 @@ from taskiq.acks import AcknowledgeType
 from taskiq.exceptions import SendTaskError
 from taskiq.kicker import AsyncKicker
 from taskiq.receiver import Receiver
+from taskiq import Context, TaskiqDepends
 
 from vt.core.engine import Outcome, Part
 from vt.core.vloop import Deadlock, VirtualTimeLoop
@@ -294,11 +295,21 @@ HOOKSET = ("pre_send", "post_send", "pre_execute", "on_error", "post_execute", "
 def history_cases() -> Any:
     mw = st.fixed_dictionaries({"hooks": st.sets(st.sampled_from(HOOKSET), min_size=1, max_size=6).map(sorted), "async": st.booleans(),
                                 "via": st.sampled_from(["add_middlewares", "add_middlewares", "with_middlewares"])})
-    op = st.one_of(st.tuples(st.just("msg"), st.sampled_from(["ok", "ok", "fail", "nores"])).map(list),
+    op = st.one_of(st.tuples(st.just("msg"), st.sampled_from(["ok", "ok", "fail", "nores", "retry_fail"])).map(list),
                    st.tuples(st.just("msg"), st.sampled_from(["ok", "fail"])).map(list),
                    st.tuples(st.just("burst"), st.integers(2, 4)).map(list),
                    st.tuples(st.just("add"), mw).map(list))
-    return st.fixed_dictionaries({"history": st.just(True), "initial": st.lists(mw, max_size=2), "ops": st.lists(op, min_size=2, max_size=9)})
+    # optionally the bundled retry middleware sits somewhere in the initial stack: its re-send is a send like any other
+    return st.fixed_dictionaries({"history": st.just(True), "initial": st.lists(mw, max_size=2), "ops": st.lists(op, min_size=2, max_size=9),
+                                  "retry_pos": st.sampled_from([None, None, 0, 1, 2])}).map(_with_retry)
+
+
+def _with_retry(d: Dict[str, Any]) -> Dict[str, Any]:
+    rp = d.pop("retry_pos")
+    if rp is not None:
+        d["initial"] = list(d["initial"])
+        d["initial"].insert(min(rp, len(d["initial"])), {"hooks": [], "async": False, "via": "add_middlewares", "retry": True})
+    return d
 
 
 def run_history(c: Dict[str, Any]) -> Outcome:
@@ -325,6 +336,10 @@ def run_history(c: Dict[str, Any]) -> Outcome:
             yield b""
 
     def make_mw(idx: int, spec: Dict[str, Any]) -> Any:
+        if spec.get("retry"):
+            from taskiq import SimpleRetryMiddleware
+
+            return SimpleRetryMiddleware(default_retry_count=3)
         ns: Dict[str, Any] = {}
         for h in spec["hooks"]:
             def mk(h: str = h) -> Any:
@@ -356,9 +371,9 @@ def run_history(c: Dict[str, Any]) -> Outcome:
         b = QB()
         b.result_backend = InmemoryResultBackend()
 
-        async def t(kind: str) -> Any:
+        async def t(kind: str, ctx: Context = TaskiqDepends()) -> Any:
             log.append(("task", None))
-            if kind == "fail":
+            if kind == "fail" or (kind == "retry_fail" and "_retries" not in ctx.message.labels):
                 raise ValueError("boom")
             if kind == "nores":
                 raise NoResultError()
@@ -400,9 +415,10 @@ def run_history(c: Dict[str, Any]) -> Outcome:
                 continue
             del log[:]
             nmsg += 1
-            await AsyncKicker("hist.t", b, {}).with_task_id(f"H{nmsg}").kiq(arg)
+            await AsyncKicker("hist.t", b, {"retry_on_error": True} if arg == "retry_fail" else {}).with_task_id(f"H{nmsg}").kiq(arg)
             try:
-                await r.callback(b.q.pop(0).message)
+                while b.q:
+                    await r.callback(b.q.pop(0).message)
             except BaseException as e:  # noqa: BLE001
                 out.add("C10.b", f"message #{nmsg}: processing raised {type(e).__name__}: {e}")
                 return
@@ -410,12 +426,20 @@ def run_history(c: Dict[str, Any]) -> Outcome:
             def ov(h: str) -> List[Any]:
                 return [(h, i) for i, s in stack if h in s["hooks"]]
 
-            exp = ov("pre_send") + [("kick", None)] + ov("post_send") + ov("pre_execute") + [("task", None)]
-            if arg in ("fail", "nores"):
-                exp += ov("on_error")
+            send = ov("pre_send") + [("kick", None)] + ov("post_send")
+            retried = arg == "retry_fail" and any(s.get("retry") for _, s in stack)
+            exp = send + ov("pre_execute") + [("task", None)]
+            if arg in ("fail", "nores", "retry_fail"):
+                for i, s in stack:
+                    if s.get("retry") and arg == "retry_fail":
+                        exp += send                      # the retry middleware's on_error sends the message again: a send like any other
+                    elif "on_error" in s["hooks"]:
+                        exp.append(("on_error", i))
             exp += ov("post_execute")
-            if arg != "nores":
+            if arg != "nores" and not retried:
                 exp += ov("post_save")
+            if retried:
+                exp += ov("pre_execute") + [("task", None)] + ov("post_execute") + ov("post_save")     # the second delivery succeeds
             if log != exp:
                 out.add("C10.b" if log[: len(ov("pre_send")) + 1 + len(ov("post_send"))] == exp[: len(ov("pre_send")) + 1 + len(ov("post_send"))] else "C10.a",
                         f"message #{nmsg} ({arg}) with the stack {[(i, s['hooks']) for i, s in stack]} (registered in this order, "
@@ -424,7 +448,7 @@ def run_history(c: Dict[str, Any]) -> Outcome:
 
     asyncio.run(go())
     out.nontrivial = late
-    out.classes = ["history"] + (["middleware_registered_after_first_message"] if late else []) + (["concurrent_sends_through_one_kicker"] if bursts else [])
+    out.classes = ["history"] + (["middleware_registered_after_first_message"] if late else []) + (["concurrent_sends_through_one_kicker"] if bursts else []) + (["retry_middleware_resend"] if any(s.get("retry") for _, s in stack) and any(o == "msg" and a == "retry_fail" for o, a in c["ops"]) else [])
     return out
 
 
